@@ -3,7 +3,7 @@
 use checks::avro::{avro_profile, AvroFmt};
 use checks::c18::run_all;
 use checks::ipc::{ipc_profile, IpcCfg, IpcFmt};
-use checks::pq::{pq_profile_basic, PqCfg, PqFmt};
+use checks::pq::{pq_profile_basic, PqAsyncFmt, PqCfg, PqFmt};
 use checks::text::{csv_profile, json_profile, CsvFmt, JsonFmt};
 use checks::gen_workload;
 use simcore::{Ctx, Scenario, R};
@@ -80,6 +80,163 @@ fn parquet(ctx: &Ctx) -> R {
     run_all(ctx, &PqFmt { wl, cfg, flush_after })
 }
 
+/// The asynchronous writer / stream over the tokio faces of the same devices, with seeded `Pending`s.
+fn parquet_async(ctx: &Ctx) -> R {
+    let p = pq_profile_basic(ctx);
+    let wl = gen_workload(ctx, &p, 3, 24, true);
+    let cfg = PqCfg::gen(ctx);
+    let flush_after = (0..wl.batches.len()).filter(|_| ctx.chance(1, 4, "pq.flush")).collect();
+    let pending_rate = *ctx.pick(&[0u64, 3, 8], "pqasync.pending");
+    run_all(ctx, &PqAsyncFmt { inner: PqFmt { wl, cfg, flush_after }, pending_rate })
+}
+
+// ---------------------------------------------------------------------------------------------
+// PageStore (the writer's spill seam): put / take fail at call k, keys are handed out non-densely
+// ---------------------------------------------------------------------------------------------
+
+mod spill {
+    use bytes::Bytes;
+    use parquet::column::page_store::{PageKey, PageStore, PageStoreArgs, PageStoreFactory};
+    use parquet::errors::{ParquetError, Result};
+    use std::collections::HashMap;
+    use std::sync::atomic::{AtomicUsize, Ordering};
+    use std::sync::Arc;
+
+    #[derive(Debug, Default)]
+    pub struct Shared {
+        pub calls: AtomicUsize,
+        pub fail_at: AtomicUsize,
+        pub persistent: std::sync::atomic::AtomicBool,
+        pub fired: AtomicUsize,
+        pub puts: AtomicUsize,
+        pub takes: AtomicUsize,
+    }
+
+    #[derive(Debug)]
+    pub struct Factory(pub Arc<Shared>);
+
+    struct Store {
+        sh: Arc<Shared>,
+        blobs: HashMap<u64, Bytes>,
+        next: u64,
+    }
+
+    impl Store {
+        fn gate(&self, what: &str) -> Result<()> {
+            let idx = self.sh.calls.fetch_add(1, Ordering::SeqCst);
+            let at = self.sh.fail_at.load(Ordering::SeqCst);
+            if idx == at || (self.sh.persistent.load(Ordering::SeqCst) && idx > at) {
+                self.sh.fired.fetch_add(1, Ordering::SeqCst);
+                return Err(ParquetError::External(Box::new(std::io::Error::new(std::io::ErrorKind::StorageFull, format!("simulated spill store failure in {what}")))));
+            }
+            Ok(())
+        }
+    }
+
+    impl PageStore for Store {
+        fn put(&mut self, value: Bytes) -> Result<PageKey> {
+            self.gate("put")?;
+            self.sh.puts.fetch_add(1, Ordering::SeqCst);
+            // keys are opaque: not dense, not starting at zero
+            let key = self.next * 7 + 3;
+            self.next += 1;
+            self.blobs.insert(key, value);
+            Ok(PageKey::new(key))
+        }
+        fn take(&mut self, key: PageKey) -> Result<Bytes> {
+            self.gate("take")?;
+            self.sh.takes.fetch_add(1, Ordering::SeqCst);
+            self.blobs.remove(&key.get()).ok_or_else(|| ParquetError::General(format!("simulated spill store: unknown or already taken key {}", key.get())))
+        }
+    }
+
+    impl PageStoreFactory for Factory {
+        fn create(&self, _args: &PageStoreArgs<'_>) -> Result<Box<dyn PageStore>> {
+            Ok(Box::new(Store { sh: self.0.clone(), blobs: HashMap::new(), next: 0 }))
+        }
+    }
+}
+
+fn parquet_spill(ctx: &Ctx) -> R {
+    use parquet::arrow::arrow_writer::ArrowWriterOptions;
+    use parquet::arrow::ArrowWriter;
+    use simcore::bail_v;
+    use std::sync::atomic::Ordering;
+    use std::sync::Arc;
+    let p = pq_profile_basic(ctx);
+    let wl = gen_workload(ctx, &p, 3, 24, true);
+    let cfg = PqCfg::gen(ctx);
+    let flush_after: Vec<usize> = (0..wl.batches.len()).filter(|_| ctx.chance(1, 4, "pq.flush")).collect();
+    simcore::runner::set_component("parquet.arrow_writer.spill");
+    // one write: Ok(bytes) or the first error
+    let write = |fail_at: usize, persistent: bool| -> (Result<(), String>, Vec<u8>, Arc<spill::Shared>) {
+        let sh = Arc::new(spill::Shared::default());
+        sh.fail_at.store(fail_at, Ordering::SeqCst);
+        sh.persistent.store(persistent, Ordering::SeqCst);
+        let mut buf = Vec::new();
+        let res = (|| -> Result<(), parquet::errors::ParquetError> {
+            let opts = ArrowWriterOptions::new().with_properties(cfg.props_for(&wl.schema)).with_page_store_factory(Arc::new(spill::Factory(sh.clone())));
+            let mut w = ArrowWriter::try_new_with_options(&mut buf, wl.schema.clone(), opts)?;
+            for (i, b) in wl.batches.iter().enumerate() {
+                w.write(b)?;
+                if flush_after.contains(&i) {
+                    w.flush()?;
+                }
+            }
+            w.close()?;
+            Ok(())
+        })();
+        (res.map_err(|e| e.to_string()), buf, sh)
+    };
+    // references: the default in-memory store, and the fault-free spill store (must produce the same file)
+    let plain = {
+        let sink = simcore::io::SimSink::new(ctx, simcore::io::Plan::none());
+        let f = PqFmt { wl: checks::Workload { schema: wl.schema.clone(), batches: wl.batches.clone(), logical: vec![] }, cfg: cfg.clone(), flush_after: flush_after.clone() };
+        match std::panic::catch_unwind(std::panic::AssertUnwindSafe(|| checks::Fmt::write(&f, ctx, sink.clone(), checks::Post::Drop))) {
+            Ok(w) if w.api_ok => sink.data(),
+            _ => {
+                ctx.count("skipped", 1);
+                ctx.count("skipped.reference_write_failed", 1);
+                return Ok(());
+            }
+        }
+    };
+    let (r0, bytes0, sh0) = write(usize::MAX, false);
+    ctx.count("executions", 1);
+    if let Err(e) = r0 {
+        bail_v!(ctx, "write_failed", "parquet.arrow_writer.spill/fault_free", "the writer failed with a fault-free page store although it succeeds with the in-memory one: {e}");
+    }
+    if bytes0 != plain {
+        bail_v!(ctx, "wrong_bytes", "parquet.arrow_writer.spill/output", "fault-free page store: the file differs from the one written with the in-memory store at byte {} ({} vs {} bytes)", simcore::io::first_diff(&bytes0, &plain), bytes0.len(), plain.len());
+    }
+    let n = sh0.calls.load(Ordering::SeqCst);
+    ctx.nontrivial();
+    ctx.shape("parquet.spill", n as u64, plain.len() as u64);
+    ctx.count("spill_calls_enumerated", n as u64);
+    if sh0.takes.load(Ordering::SeqCst) > 0 {
+        ctx.probe("spill.pages_taken_back");
+    }
+    for j in ctx.sweep("p", n * 2) {
+        ctx.set_at("p", j as u64);
+        let (k, persistent) = (j / 2, j % 2 == 1);
+        let (r, bytes, sh) = write(k, persistent);
+        ctx.count("executions", 1);
+        ctx.fault("spill.error", k as u64);
+        let fired = sh.fired.load(Ordering::SeqCst) > 0;
+        if fired && r.is_ok() {
+            bail_v!(ctx, "swallowed_error", "parquet.arrow_writer.spill/call_k", "the page store failed at call {k} (persistent={persistent}) but every writer API call returned Ok ({} of {} bytes in the sink)", bytes.len(), plain.len());
+        }
+        if r.is_ok() && bytes != plain {
+            bail_v!(ctx, "wrong_bytes", "parquet.arrow_writer.spill/output", "no store fault fired, yet the file differs from the reference at byte {}", simcore::io::first_diff(&bytes, &plain));
+        }
+        if r.is_err() && !simcore::io::is_prefix(&bytes, &plain) {
+            bail_v!(ctx, "not_a_prefix", "parquet.arrow_writer.spill/prefix", "after a page store failure at call {k} the sink holds {} bytes that are not a prefix of the fault-free file (first difference at {})", bytes.len(), simcore::io::first_diff(&bytes, &plain));
+        }
+    }
+    ctx.clear_at("p");
+    Ok(())
+}
+
 /// Values large enough that single `write_all` calls exceed std's 8 KiB `BufWriter` capacity (the
 /// buffer is then bypassed and the sink sees the writer's own call pattern).
 fn parquet_big(ctx: &Ctx) -> R {
@@ -115,6 +272,8 @@ fn main() {
             Scenario { name: "avro_soe", runs_quick: 150, runs_thorough: 3000, f: avro_soe },
             Scenario { name: "parquet", runs_quick: 150, runs_thorough: 4000, f: parquet },
             Scenario { name: "parquet_big", runs_quick: 40, runs_thorough: 800, f: parquet_big },
+            Scenario { name: "parquet_async", runs_quick: 120, runs_thorough: 3000, f: parquet_async },
+            Scenario { name: "parquet_spill", runs_quick: 200, runs_thorough: 5000, f: parquet_spill },
         ],
     );
 }
